@@ -3,7 +3,7 @@ C06 — byte-level model of the WAL file format and reader of `internal/wal`:
 
 * `wal.go`     `rotate` (7-byte file header), `AppendRaw`, `AppendRawWithMeta` (entry framing
                `len32 | ts64 | crc32(payload) | payload`, big-endian; envelope `0x01 | len16 | db | msgpack`),
-               `ParseEnvelope` (including its `uint16` wrap-around), size-based rotation in `writeEntry`;
+               `ParseEnvelope`, size-based rotation in `writeEntry`;
 * `reader.go`  `Reader.ReadAll` / `readEntry` with `io.ReadFull` semantics and the loop's on-error policy;
 * `recovery.go` per-file replay (a file whose `ReadAll` fails is skipped).
 
@@ -163,10 +163,22 @@ structure Out where
   val : Bytes
 deriving Repr, DecidableEq
 
-/-- `ParseEnvelope(payload, "")`. `none` = runtime panic: `3+dbLen` is computed in `uint16`, so for
-`dbLen ≥ 65533` it wraps to 0..2, passes the `<= len(payload)` test, and `payload[3:3+dbLen]` has
-low > high. -/
+/-- `ParseEnvelope(payload, "")` of the current source: `end := 3 + int(dbLen)` is computed in `int`,
+so the bound test is exact and the function never panics. The result type keeps the `Option`
+(`none` = runtime panic) so that `classify`/`scan` can still express a panicking parser; see
+`parseEnvelope_isSome` in Proofs. -/
 def parseEnvelope (p : Bytes) : Option (Bytes × Bytes) :=
+  if p.length > 3 ∧ p.head? = some envelopeMarker then
+    let hi := 3 + rdBE ((p.drop 1).take 2)
+    if hi ≤ p.length then some ((p.drop 3).take (hi - 3), p.drop hi)
+    else some ([], p)
+  else some ([], p)
+
+/-- `ParseEnvelope` as it was BEFORE repo commit 8704efa (kept only for the historical witness
+`C06_envelope_wrap_witness_prefix`; nothing else uses it): `3+dbLen` was computed in `uint16`, so
+for `dbLen ≥ 65533` it wrapped to 0..2, passed the `<= len(payload)` test, and `payload[3:3+dbLen]`
+had low > high — a runtime panic (`none`). -/
+def parseEnvelopePreFix (p : Bytes) : Option (Bytes × Bytes) :=
   if p.length > 3 ∧ p.head? = some envelopeMarker then
     let hi := (3 + rdBE ((p.drop 1).take 2)) % 65536
     if hi ≤ p.length then
